@@ -163,7 +163,7 @@ Qed.
 Corollary new_board_search_is_spec_minimax : forall z cancel use_q qfuel,
   (forall n, cancel n = true -> cancel (S n) = true) ->
   forall pos turn np fm depth st nodes sc pv,
-  wf_b pos turn = true -> (turn = White \/ turn = Black) -> zt_ok z ->
+  wf_b pos turn = true -> (turn = White \/ turn = Black) -> (np <= max_int)%N -> zt_ok z ->
   qh use_q qfuel + Z.of_nat depth <= 127 ->
   let gb := new_board z [] pos turn np fm in
   b_leaves_ok z use_q qfuel depth true (norm (abs (fst gb) (snd gb))) ->
@@ -171,8 +171,8 @@ Corollary new_board_search_is_spec_minimax : forall z cancel use_q qfuel,
   go_eq sc (spec_value use_q qfuel depth true (g_start (abs_pos pos) (color_of turn) (Z.of_N np) fm)) = true /\
   valid sc = true.
 Proof.
-  intros z cancel use_q qfuel Hmono pos turn np fm depth st nodes sc pv Hw Ht Hzt Hd gb Hl Hrun.
-  destruct (RG_new z pos turn np fm Hw Ht) as (HRG & HB & Hdraw). fold gb in HRG, HB, Hdraw.
+  intros z cancel use_q qfuel Hmono pos turn np fm depth st nodes sc pv Hw Ht Hnp Hzt Hd gb Hl Hrun.
+  destruct (RG_new z pos turn np fm Hw Ht Hnp) as (HRG & HB & Hdraw). fold gb in HRG, HB, Hdraw.
   apply (board_search_is_spec_minimax z cancel use_q qfuel Hmono gb depth st nodes sc pv (abs (fst gb) (snd gb))
            (g_start (abs_pos pos) (color_of turn) (Z.of_N np) fm)); try assumption.
   - intros _ H. discriminate H.
